@@ -183,6 +183,47 @@ def check(prog, run):
             oklo = all(nonneg(x) for x in vals)
             ob("R-lag", "largest lag used is computed", okhi and oklo, f"lag index {idxp!r} over its loops takes {sorted({repr(x) for x in vals})}, lags computed: {length!r}",
                f"{idxp!r}/{length!r}", rnode, cfg)
+    # ------------------------------------------------------------ which method is built: run parameter first, class default as fallback
+    run.rule("R-method", "every SSI run() hands `run_params.method` (falling back to the class default only when it is not set) to the Hankel builder", 2)
+
+    def priority(e):
+        """operands of `a or b` / `a if a else b` / `a if a is not None else b` in order of precedence"""
+        if isinstance(e, ast.BoolOp) and isinstance(e.op, ast.Or):
+            return [astq.src(v) for v in e.values]
+        if isinstance(e, ast.IfExp):
+            t = e.test
+            tested = t.left if isinstance(t, ast.Compare) and len(t.ops) == 1 and isinstance(t.ops[0], ast.IsNot) else t
+            if astq.dump(tested) == astq.dump(e.body):
+                return [astq.src(e.body), astq.src(e.orelse)]
+            if isinstance(t, ast.UnaryOp) and isinstance(t.op, ast.Not) and astq.dump(t.operand) == astq.dump(e.orelse):
+                return [astq.src(e.orelse), astq.src(e.body)]
+            if isinstance(t, ast.Compare) and len(t.ops) == 1 and isinstance(t.ops[0], ast.Is) and astq.dump(t.left) == astq.dump(e.orelse):
+                return [astq.src(e.orelse), astq.src(e.body)]
+            return None
+        return [astq.src(e)]
+    nm_ = 0
+    for ci in prog.classes.values():
+        if not ci.mod.startswith("pyoma2.algorithms"):
+            continue
+        m = ci.methods.get("run")
+        if m is None:
+            continue
+        for callee, param in ((fi.qual, pm), ("pyoma2.functions.ssi.SSI_multi_setup", "method_hank")):
+            for rec in astq.forwarded_args(prog, m, callee, depth=0):
+                a = rec["args"].get(param)
+                nm_ += 1
+                fm = rel(prog.mods[m.mod].path)
+                if a is None:
+                    run.ob("R-method", m.qual, f"{callee.split('.')[-1]}.{param}", None if param not in rec["missing"] else False, f"`{param}` is not passed / not traceable", file=fm, node=rec["call"])
+                    continue
+                pr = priority(a)
+                ok = None
+                if pr is not None:
+                    ok = pr[0] == "self.run_params.method" and all(x in ("self.run_params.method", "self.method") for x in pr)
+                run.ob("R-method", m.qual, f"{callee.split('.')[-1]}.{param}", ok, f"`{astq.src(a, 70)}`: precedence {pr}" + ("" if ok else " - the method chosen in the run parameters is not the one that is built"),
+                       witness=str(pr), file=fm, node=rec["call"])
+    if not nm_:
+        run.ob("R-method", "pyoma2.algorithms", "callers", None, "no run() method calling the Hankel builder found")
     # ------------------------------------------------------------ bilinearity
     I = Interp(prog)
     fn = I.fn(FN)
